@@ -69,7 +69,7 @@ STRESS = [
      [[False, {"i": "55"}]]),
     # a Go function called with a trailing optional argument omitted, right after a call of the same arity that gave it:
     # pooled argument sets must not leak the earlier value (values below are what the manual gives)
-    ("optional-args-after-full-args", 'do local ran = 0 pcall(runtime.callcontext, {}, function() ran = ran + 1 end) pcall(runtime.callcontext, {}) emit(ran <= 1) end emit(string.rep("x", 3, ","), string.rep("x", 3)) emit(string.find("a.b", ".", 2, true)) emit(string.find("a.b", "%.", 1)) emit(string.find("a.b", "b")) emit(table.concat({1, 2, 3}, ",", 2, 3), table.concat({1, 2, 3}, ","), table.concat({1, 2, 3})) emit(tonumber("10", 16), tonumber("10")) emit(string.sub("hello", 2, 3), string.sub("hello", 2)) emit(select("#", table.unpack({1, 2, 3}, 2, 3)), select("#", table.unpack({1, 2, 3}, 2)), select("#", table.unpack({1, 2, 3}))) emit(string.byte("abc", 1, 2)) emit(string.byte("abc", 2)) emit(string.byte("abc")) emit((string.gsub("aaa", "a", "b", 1)), (string.gsub("aaa", "a", "b"))) emit(math.max(1, 5, 3), math.max(2), math.min(4, 2), math.min(7)) emit(string.format("%d-%d", 1, 2), string.format("%d", 7)) emit(rawequal(1, 1), rawlen({1, 2}), select("#", next({}, nil)), select("#", next({}))) emit(tostring(1, 2), tostring(3)) emit(utf8.char(65, 66), utf8.char(67), utf8.len("ab", 1, 2), utf8.len("ab")) emit(select(-1, 1, 2, 3), select(2, "a", "b")) emit(pcall(error, "e", 0)) emit(pcall(error, "e", 0)) emit((pcall(error))) emit(coroutine.wrap(function(a, b) return a, b end)(1, 2)) emit(coroutine.wrap(function(a, b) return a, b end)(1)) emit(string.pack("i1i1", 1, 2) == "\\1\\2", string.pack("i1", 3) == "\\3", string.unpack("i1", "\\5", 1), (string.unpack("i1", "\\6"))) emit(load("return 1", "n", "t", {}) ~= nil, load("return 2", "n") ~= nil, load("return 3") ~= nil) emit(setmetatable({}, {__index = function(t, k, extra) return extra == nil end}).x)',
+    ("optional-args-after-full-args", 'do local ran = 0 pcall(function() runtime.callcontext({}, function() ran = ran + 1 end) end) pcall(function() runtime.callcontext({}) end) emit(ran <= 1) end emit(string.rep("x", 3, ","), string.rep("x", 3)) emit(string.find("a.b", ".", 2, true)) emit(string.find("a.b", "%.", 1)) emit(string.find("a.b", "b")) emit(table.concat({1, 2, 3}, ",", 2, 3), table.concat({1, 2, 3}, ","), table.concat({1, 2, 3})) emit(tonumber("10", 16), tonumber("10")) emit(string.sub("hello", 2, 3), string.sub("hello", 2)) emit(select("#", table.unpack({1, 2, 3}, 2, 3)), select("#", table.unpack({1, 2, 3}, 2)), select("#", table.unpack({1, 2, 3}))) emit(string.byte("abc", 1, 2)) emit(string.byte("abc", 2)) emit(string.byte("abc")) emit((string.gsub("aaa", "a", "b", 1)), (string.gsub("aaa", "a", "b"))) emit(math.max(1, 5, 3), math.max(2), math.min(4, 2), math.min(7)) emit(string.format("%d-%d", 1, 2), string.format("%d", 7)) emit(rawequal(1, 1), rawlen({1, 2}), select("#", next({}, nil)), select("#", next({}))) emit(tostring(1, 2), tostring(3)) emit(utf8.char(65, 66), utf8.char(67), utf8.len("ab", 1, 2), utf8.len("ab")) emit(select(-1, 1, 2, 3), select(2, "a", "b")) emit(pcall(error, "e", 0)) emit(pcall(error, "e", 0)) emit((pcall(error))) emit(coroutine.wrap(function(a, b) return a, b end)(1, 2)) emit(coroutine.wrap(function(a, b) return a, b end)(1)) emit(string.pack("i1i1", 1, 2) == "\\1\\2", string.pack("i1", 3) == "\\3", string.unpack("i1", "\\5", 1), (string.unpack("i1", "\\6"))) emit(load("return 1", "n", "t", {}) ~= nil, load("return 2", "n") ~= nil, load("return 3") ~= nil) emit(setmetatable({}, {__index = function(t, k, extra) return extra == nil end}).x)',
      [[True], [{"s": "x,x,x"}, {"s": "xxx"}], [{"i": "2"}, {"i": "2"}], [{"i": "2"}, {"i": "2"}], [{"i": "3"}, {"i": "3"}], [{"s": "2,3"}, {"s": "1,2,3"}, {"s": "123"}], [{"i": "16"}, {"i": "10"}], [{"s": "el"}, {"s": "ello"}], [{"i": "2"}, {"i": "2"}, {"i": "3"}], [{"i": "97"}, {"i": "98"}], [{"i": "98"}], [{"i": "97"}], [{"s": "baa"}, {"s": "bbb"}], [{"i": "5"}, {"i": "2"}, {"i": "2"}, {"i": "7"}], [{"s": "1-2"}, {"s": "7"}], [True, {"i": "2"}, {"i": "1"}, {"i": "1"}], [{"s": "1"}, {"s": "3"}], [{"s": "AB"}, {"s": "C"}, {"i": "2"}, {"i": "2"}], [{"i": "3"}, {"s": "b"}], [False, {"s": "e"}], [False, {"s": "e"}], [False], [{"i": "1"}, {"i": "2"}], [{"i": "1"}, None], [True, True, {"i": "5"}, {"i": "6"}], [True, True, True], [True]]),
     ("tostring-metamethod-reentry", "local mt = {__tostring = function(t) return 'obj' .. #t end, __concat = function(a, b) return tostring(a) .. '|' .. tostring(b) end} "
                                     "local a, b = setmetatable({1}, mt), setmetatable({1, 2}, mt) local s = '' for i = 1, 100 do s = a .. b end emit(s)", [[{"s": "obj1|obj2"}]]),
